@@ -72,6 +72,7 @@ extern void *vf_caught_a[VF_NTHREADS];
 #define vf_caught vf_caught_a[vf_tid]
 extern int vf_pc[VF_NTHREADS];     /* resume point of each thread root; -1 = finished */
 extern _Bool vf_blk;               /* set by a blocking primitive that could not complete */
+extern _Bool vf_fresh[VF_NTHREADS]; /* thread root not entered yet */
 extern _Bool vf_paused;            /* the running thread gave up the processor at a spin hint */
 extern int vf_in_ghost;            /* inside a harness ghost-state section: no preemption */
 extern int vf_vis_t;               /* trace marker: thread performing a visible operation */
